@@ -20,6 +20,7 @@ is assumed, the detector records are part of the state), every container:
                                 SAME container, whatever their fields and detector states were
   C06_rerun_deterministic       hence run_fdtd from either gives identical results, in particular from the arrays
                                 returned by a previous run (`C06_rerun_from_output`, body preserving the frame)
+  C06_rerun_from_output_any     the same under every accepted gradient strategy
   C06_unrecorded_detectors      custom_fdtd_forward(record_detectors=False): detector states are all zero after
                                 reset_container=True and untouched after reset_container=False, whatever they held before
   C06_recorded_rows             record_detectors=True: rows not written by a step of the executed window are zero
@@ -216,6 +217,16 @@ theorem C06_rerun_from_output (T : Nat) (body : Nat → Container α → Contain
     obtain ⟨p1, p2, p3, p4, _⟩ := C06_reset_preserves c true false
     exact ⟨h1.trans p1, h2.trans p2, h3.trans p3, h4.trans p4⟩
   rw [C06_rerun_deterministic T .none body out.2 c hsf, hout]
+
+/-- … under every accepted gradient strategy (the arrays returned by a reversible / checkpointed run are as good a
+starting point as a fresh placement) -/
+theorem C06_rerun_from_output_any (T : Nat) (g : Grad) (hg : validGrad T g) (body : Nat → Container α → Container α)
+    (hbody : ∀ t x, sameFrame (body t x) x) (c : Container α) :
+    ∀ out, runFdtd T g none false (fun x => x.reset) body c = .ok out →
+      runFdtd T g none false (fun x => x.reset) body out.2 = .ok out := by
+  intro out hout
+  rw [C05_strategy_pairwise T g .none hg trivial] at hout ⊢
+  exact C06_rerun_from_output T body hbody c out hout
 
 end reset
 
